@@ -132,6 +132,20 @@ Theorem C15_address_invalid_iff : forall O nb ob email,
 Proof. exact verdict_invalid_iff. Qed.
 Print Assumptions C15_address_invalid_iff.
 
+(* Last-Translator: invalid iff no address / reserved domain / dot-less domain; boilerplate only outside templates *)
+Theorem C15_invalid_translator_iff : forall O known dedicated nb ob inp ds, hdr_check O known dedicated nb ob inp = Ok ds ->
+  forall v, In (DInvalidTranslator v) ds <->
+    In v (values (field_name FTranslator) (metadata_of (h_entries inp))) /\ bad_address (o_lower O) nb ob (o_parseaddr O v).
+Proof. exact invalid_translator_iff. Qed.
+Print Assumptions C15_invalid_translator_iff.
+
+Theorem C15_boilerplate_translator_iff : forall O known dedicated nb ob inp ds, hdr_check O known dedicated nb ob inp = Ok ds ->
+  forall v, In (DBoilerplateTranslator v) ds <->
+    In v (values (field_name FTranslator) (metadata_of (h_entries inp))) /\ h_template inp = false /\
+    addr_verdict O nb ob is_boiler1 (o_parseaddr O v) = VBoilerplate.
+Proof. exact boilerplate_translator_iff. Qed.
+Print Assumptions C15_boilerplate_translator_iff.
+
 (* a header that follows every convention yields no diagnostic from the modelled methods *)
 Theorem C15_clean_header_silent : forall O known dedicated nb ob, o_word O 32 = false -> o_word O 99 = true ->
   forall inp e fs, clean_header O known nb ob inp e fs -> hdr_check O known dedicated nb ob inp = Ok [].
